@@ -241,7 +241,7 @@ def e2_checks(pid, tier, seed):
             out.append(spec('c12_tlf_big_list_%d' % L, 'chk_parse_c12', [('nib', 0xF)] + [0x80] * L + [('nib', 0x0)] + [0x01] + tail, 'outer list TLF of %d bytes: first and last length nibble symbolic, zero nibbles between' % (L + 2), max_steps=30000000))
             out.append(spec('c12_tlf_big_str_%d' % L, 'chk_parse_c12', [0x76, ('nib', 0x8)] + [0x80] * L + [('nib', 0x0)] + S(2) + tail, 'transaction-id TLF of %d bytes: first and last length nibble symbolic' % (L + 2), max_steps=30000000))
         # type-length bytes of time / value / status fields replaced by a symbolic byte (checksums recomputed): width and type dispatch
-        out += file_specs('chk_mut_c12', 'c12', tier, seed, [1], names=['open_bare_time', 'open_short_time', 'list_opts', 'list_vals_misc'] if q else ['open_bare_time', 'open_short_time', 'open_full', 'list_opts', 'list_vals_misc', 'list_vals_int', 'list_vals_uint', 'list_status'])
+        out += file_specs('chk_mut_c12', 'c12', tier, seed, [1], names=['open_bare_time', 'open_short_time', 'list1'] if q else ['open_bare_time', 'open_short_time', 'open_full', 'list_opts', 'list_vals_misc', 'list_vals_int', 'list_vals_uint', 'list_status'])
         # fully symbolic TLFs of up to 9 bytes at the transaction-id position, seen through both parsers
         for n in ((2, 4) if q else (1, 2, 3, 5, 9)):
             out.append(spec('c12_tid_tlf_n%d' % n, 'chk_parse_c12', [0x76] + S(n) + [0xAA] + tail, 'transaction-id TLF replaced by %d symbolic bytes (+1 data byte), checksum symbolic' % n))
